@@ -753,7 +753,7 @@ func (g *gWorld) genGenericOp(rt *rapid.T, focus int) gOp {
 		ns := rapid.IntRange(1, 7).Draw(rt, "nscript")
 		sk := []string{"optional", "with", "without", "exclusive", "exclusive", "query", "query", "query", "register", "unregister", "late"}
 		if ad.HasRel {
-			sk = append(sk, "relation", "relation", "two", "two", "query")
+			sk = append(sk, "relation", "relation", "relation", "relation", "two", "two", "two", "query", "query", "query")
 		}
 		for i := 0; i < ns; i++ {
 			s := gStep{K: rapid.SampledFrom(sk).Draw(rt, "sk"), E: g.pickTargetIdx(rt, true), F: g.pickTargetIdx(rt, false)}
